@@ -3,7 +3,7 @@
 set -u
 cd "$(dirname "$0")/.."
 mkdir -p .build evidence replays
-ids=$(ls checks.d | sed "s/\.json$//")
+ids=$(cat ready.txt)
 fail=0
 # build sequentially per package group (go build itself is parallel)
 for id in $ids; do
